@@ -5,7 +5,7 @@ import copy
 import networkx as nx
 import dynetx as dn
 
-from .core import (Model, histories, run_history, new_graph, apply_call, state_key, Collector, NODES, T_LO, T_HI, qs_of)
+from .core import (Model, histories, run_history, new_graph, apply_call, state_key, Collector, NODES, T_LO, T_HI, qs_of, sorted)
 
 QS = list(range(T_LO - 2, T_HI + 4))
 
@@ -54,7 +54,7 @@ def c01_presence(tier, seed):
                     'for every pair (both endpoint orders), q in -2..7; acceptance compared with the documented rule; '
                     'non-trivial = distinct representation state with at least one interaction')
     extra = [('path', (1, 2, 3), 1), ('star', (2, 1, 3), 2), ('cycle', (1, 2, 3), 0), ('from', ((1, 2), (2, 3), (1, 2)), 1, 3)]
-    for cls, removal, h in histories(tier, seed, extra_calls=extra):
+    for cls, removal, h in histories(tier, seed, odd_ids=True, extra_calls=extra):
         G, M, outs = run_history(cls, removal, h)
         bad = [(c, o) for c, o in zip(h, outs) if o[0] != o[1]]
         if bad:
@@ -149,7 +149,7 @@ def c03_canonical(tier, seed):
                     'non-trivial = distinct state with at least one interaction')
     for cls in ('DynGraph', 'DynDiGraph'):
         _d23_probe(col, cls)
-    for cls, removal, h in histories(tier, seed):
+    for cls, removal, h in histories(tier, seed, odd_ids=True):
         G, M, outs = run_history(cls, removal, h)
         if any(o[0] != o[1] for o in outs):
             continue
@@ -194,7 +194,7 @@ def check_snapshots(G, M, col, cls, removal, h, prefix='C04'):
 def c04_snapshots(tier, seed):
     col = Collector('same history space as C01; snapshot ids, per-snapshot counts (with and without argument, every q in -2..7), '
                     'avg_number_of_nodes and the functional forms compared with the presence model; non-trivial = distinct state with an interaction')
-    for cls, removal, h in histories(tier, seed):
+    for cls, removal, h in histories(tier, seed, odd_ids=True):
         G, M, outs = run_history(cls, removal, h)
         if any(o[0] != o[1] for o in outs):
             continue
@@ -292,7 +292,7 @@ def c05_stream(tier, seed):
     col = Collector('same history space as C01; the stream must be chronological, repeat-free, with + exactly where presence appears, - only where '
                     'it vanishes, every run longer than one instant closed, and replaying it must rebuild the presence model; '
                     'non-trivial = distinct state with an interaction', max_violations=12)
-    for cls, removal, h in histories(tier, seed):
+    for cls, removal, h in histories(tier, seed, odd_ids=True):
         G, M, outs = run_history(cls, removal, h)
         if any(o[0] != o[1] for o in outs):
             continue
@@ -313,7 +313,7 @@ def c07_rejected_leaves_no_trace(tier, seed):
                     'the prefix; non-trivial = distinct (state, rejected call)')
     from .core import call_alphabet
     alpha = call_alphabet()
-    for cls, removal, h in histories(tier, seed, modes=(True, False), n_random=60 if tier == 'quick' else 3000):
+    for cls, removal, h in histories(tier, seed, odd_ids=True, modes=(True, False), n_random=60 if tier == 'quick' else 3000):
         G, M, outs = run_history(cls, removal, h)
         if any(o[0] != o[1] for o in outs):
             continue
@@ -414,7 +414,7 @@ def c08_accumulative(tier, seed):
     col = Collector('histories of the C01 space on DynGraph/DynDiGraph(edge_removal=False): presence must be first-add <= t <= largest snapshot id, '
                     'snapshot ids = instants of accepted adds, exactly one + per pair at its first appearance, no - event; C02-style queries '
                     '(interactions, neighbors, degree, nodes, number_of_interactions) follow that presence; non-trivial = distinct state with an interaction')
-    for cls, removal, h in histories(tier, seed, modes=(False,)):
+    for cls, removal, h in histories(tier, seed, odd_ids=True, modes=(False,)):
         G, M, outs = run_history(cls, removal, h)
         bad = [(c, o) for c, o in zip(h, outs) if o[0] != o[1]]
         if bad:
